@@ -51,7 +51,9 @@ def subpixel_pcc(
     # Initial shift estimate in upsampled grid
     shifts = np.fix(shifts * upsample_factor) / upsample_factor
     if upsample_factor > 1:
-        upsampled_region_size = math.ceil(upsample_factor * 1.5)
+        # +-1 pixel around the coarse (integer) peak, so that every shift up to
+        # max_shifts is reachable from the last integer inside the range.
+        upsampled_region_size = 2 * upsample_factor + 1
         # Center of output array at dftshift + 1
         dftshift = float(np.fix(upsampled_region_size / 2.0))
         # Matrix multiply DFT around the current shift estimate
